@@ -22,6 +22,8 @@ PROBE_PAIRS = [
     ({"minimum": 1, "maxLength": 1}, "ab"), ({"format": "ipv4"}, "x"), ({"format": "custom-a"}, "AAA"),
     ({"const": 1}, 2), ({"enum": [1]}, 1.0), ({"required": ["a"], "properties": {"a": {"type": "null"}}}, {"a": 1}),
     ({"items": {"maximum": 1}}, [0, 2]), ({"marker": 1, "minLength": 1}, ""), ({"marker": 1}, 5),
+    ({"dependencies": {"a": ["b"]}}, {"a": 1, "b": 2}), ({"dependencies": {"a": ["b"]}, "required": ["a"]}, {"a": 1}),
+    ({"enum": [1], "const": 1}, 1), ({"minimum": 2, "exclusiveMinimum": 1, "maximum": 2}, 2),
     ({"id": "http://ex.test/a/", "properties": {"p": {"$ref": "t.json"}}}, {"p": 1}),
     ({"$id": "http://ex.test/a/", "properties": {"p": {"$ref": "t.json"}}}, {"p": 1}),
 ]
@@ -325,9 +327,11 @@ class C16(Prop):
                     fc = w.pick("fc", on)
                     # registering on an instance changes THAT instance: re-record it, nobody else may change
                     fc.checks(name)(_ff(fl))
-                    for o in w.objs:
-                        if o[1] is fc:
-                            o[3] = o[2](fc)
+                    # ... that one pool entry only: another entry that turns out to be the same object (two
+                    # public names aliasing one checker) then shows up as changed
+                    pool = [o for o in w.objs if o[0] == "fc"]
+                    chosen = pool[on % len(pool)]
+                    chosen[3] = chosen[2](fc)
                 elif op == "cls_checks":
                     FC.cls_checks("custom-cls-%d" % (fl % 2))(_ff(fl))
                     after = FC()
